@@ -5,7 +5,8 @@ import os
 import sys
 
 sys.path.insert(0, os.path.dirname(os.path.abspath(__file__)))
-from lib import Check, guarded, reslit, zlit, blit, listlit   # noqa: E402
+from lib import Check, REPO, guarded, reslit, zlit, blit, listlit   # noqa: E402
+import gen_multi                                                # noqa: E402
 from shapes import C, poly, mk_dt, dt_pair, of_dt, H            # noqa: E402
 from geostructures import (Coordinate, GeoBox, GeoCircle, GeoLineString, GeoPoint, GeoPolygon,  # noqa: E402
                            MultiGeoLineString, MultiGeoPoint, MultiGeoPolygon)
@@ -66,6 +67,8 @@ def bndlit(b):
 def main():
     ck = Check('C04')
     ck.build_theories(['theories/Props/C04.vo', 'theories/Corr/ShapeK.vo'])
+    rep = gen_multi.main(REPO, os.path.join(ck.rundir, 'MultiGen.v'))
+    ck.gen('MultiGen.v', rep, 'MultiGenEq.v')
     ck.props('Props/C04.v')
     rng = ck.rng
     cases, meta, nontriv = [], [], set()
